@@ -440,7 +440,7 @@ def run(chk):
         check_build(chk, mos, probe, model, case, 8, workdir, dist)
     seen = set()
     for i in range(nprog):
-        g, labels = c11gen.build(rng, transient=(i % 5 == 2))
+        g, labels = c11gen.build(rng, transient=(i % 10 == 2))
         key = json.dumps(g.files, sort_keys=True)
         if key in seen:
             continue
